@@ -149,6 +149,7 @@ class Prop(object):
             u.append(('subjects', {'signer': signer, 'part': 'docs1'}))
             u.append(('subjects', {'signer': signer, 'part': 'texts'}))
             u.append(('subjects', {'signer': signer, 'part': 'uids'}))
+        u.append(('gpg', {}))
         return u
 
     def run_case(self, check, case):
@@ -241,6 +242,70 @@ class Prop(object):
         if stage is not None:
             r.viol('ref-made', dict(tags, stage=stage), case, '%s: %s' % (label, detail))
         return stage
+
+    def c_gpg(self, case):
+        """Signatures and certifications made by GnuPG 2.2.40 (frozen vectors) must verify under PGPy."""
+        import pgpy
+        from mc import gpgfix as G
+        r = Res()
+        if not G.available():
+            r.states = r.transitions = 1
+            r.outcomes['gpg-vectors-absent'] += 1
+            return r
+        pubs = {}
+        for n in G.NAMES:
+            k = pgpy.PGPKey.from_blob(G.read('key.%s.pub.gpg' % n))[0]
+            pubs[str(k.fingerprint.keyid)] = k
+            for sk in k.subkeys:
+                pubs[sk] = k
+        for f in G.files('sig.*.sig'):
+            parts = f.split('.')
+            doc = G.read('doc.empty' if parts[2] == 'empty' else 'doc.txt' if parts[2] == 'text' else 'doc.bin')
+            r.states += 1
+            r.transitions += 1
+            try:
+                s = pgpy.PGPSignature.from_blob(G.read(f))
+                v = bool(pubs[s.signer].verify(doc.decode('utf-8') if parts[2] == 'text' else doc, s))
+                why = ''
+            except Exception as e:
+                v, why = False, repr(e)
+            r.outcomes['gpg-detached:' + ('ok' if v else 'rejected')] += 1
+            if not v and parts[2] != 'text':
+                r.viol('gpg', {'kind': 'detached', 'alg': parts[1]}, dict(case, only=f), 'GnuPG-made detached signature %s does not verify under PGPy %s' % (f, why))
+        for n in G.NAMES:
+            for f in ('key.%s.pub.gpg' % n, 'key.%s.publocal.gpg' % n):
+                try:
+                    blob = G.read(f)
+                except IOError:
+                    continue
+                r.states += 1
+                r.transitions += 1
+                try:
+                    k = pgpy.PGPKey.from_blob(blob)[0]
+                    sv = k.verify(k)
+                    bad = [(hex(x.signature.type), repr(x.issues)) for x in sv.bad_signatures]
+                    # an ElGamal subkey cannot be used by PGPy; everything the primary issued must verify
+                    ok = not bad
+                    why = repr(bad[:3])
+                except Exception as e:
+                    ok, why = False, repr(e)
+                r.outcomes['gpg-key:' + ('ok' if ok else 'rejected')] += 1
+                if not ok:
+                    r.viol('gpg', {'kind': 'key-self-signatures', 'key': n}, dict(case, only=f), 'self-signatures of GnuPG-made key %s do not all verify under PGPy: %s' % (f, why))
+                # third-party certifications verify under their issuer
+                for uid in k.userids:
+                    for s in uid.third_party_certifications:
+                        if s.signer in pubs:
+                            r.transitions += 1
+                            try:
+                                good = bool(pubs[s.signer].verify(uid, s))
+                            except Exception as e:
+                                good = False
+                            r.outcomes['gpg-third-party:' + ('ok' if good else 'rejected')] += 1
+                            if not good:
+                                r.viol('gpg', {'kind': 'third-party-certification', 'key': n}, dict(case, only=f), 'GnuPG-made certification by %s on %s does not verify' % (s.signer, f))
+        r.samples.append({'gpg_vectors': len(G.files('sig.*.sig'))})
+        return r
 
     def c_matrix(self, case):
         r = Res()
